@@ -703,6 +703,14 @@ func (v *validator) relation(in *Inst) {
 		}
 	case OpExtInst:
 		v.extInst(in, rt)
+	case OpDPdx, 208, 209, 210, 211, 212, 213, 214, OpFwidthCoarse:
+		if !rt.isFloat() {
+			badRes("result type %s is not a float scalar or vector", ts(in.Type))
+			return
+		}
+		if _, at, ok := opT(0); ok && at != in.Type {
+			bad("operand type %s differs from result type %s", ts(at), ts(in.Type))
+		}
 	default:
 		m.unchk[in.Name()]++
 	}
